@@ -294,9 +294,43 @@ class SymArray(np.ndarray):
         return wrap(plain(self).copy(), self._sd)
 
     def view(self, *a, **k):
-        if a or k:
-            raise EngineError('byte-level view of a symbolic array')
-        return self
+        if not a and not k:
+            return self
+        dt = a[0] if a else k.get('dtype')
+        if isinstance(dt, type) and issubclass(dt, np.ndarray):
+            return np.ndarray.view(self, dt)
+        dt = np.dtype(dt)
+        sd = self._sd
+        if dt == sd:
+            return self
+        if dt == np.uint8 and sd is not None and sd.kind in 'iu' and self.ndim >= 1:
+            # reinterpret as bytes: little-endian memory layout of this machine (checked below)
+            import sys as _sys
+            if _sys.byteorder != 'little':
+                raise EngineError('byte view modelled for little-endian hosts only')
+            nb = sd.itemsize
+            p = plain(self)
+            out = np.empty(p.shape[:-1] + (p.shape[-1] * nb,), dtype=object)
+            for idx in np.ndindex(*p.shape):
+                e = cast_elem(p[idx], sd)
+                for b in range(nb):
+                    out[idx[:-1] + (idx[-1] * nb + b,)] = BVS(ir.bvextract(e.n, 8 * b + 7, 8 * b), np.uint8)
+            return wrap(out, np.uint8)
+        raise EngineError(f'view {sd} -> {dt} of a symbolic array')
+
+    def byteswap(self, inplace=False):
+        sd = self._sd
+        if sd is None or sd.kind not in 'iu':
+            raise EngineError('byteswap of non-integer symbolic array')
+        nb = sd.itemsize
+
+        def sw(e):
+            e = cast_elem(e, sd)
+            r = ir.bvextract(e.n, 7, 0)
+            for b in range(1, nb):
+                r = ir.bvconcat(r, ir.bvextract(e.n, 8 * b + 7, 8 * b))
+            return BVS(r, sd)
+        return wrap(_elementwise(sw, self), sd)
 
     def tolist(self):
         def conv(e):
@@ -985,3 +1019,100 @@ def _np_norm(x, ord=None, axis=None, keepdims=False):
         out.reshape(-1)[0] = r
         return wrap(out, np.float64)
     return r
+
+
+@implements(np.unpackbits)
+def _np_unpackbits(a, axis=None, count=None, bitorder='big'):
+    if a._sd != np.uint8:
+        raise TypeError('Expected an input array of unsigned byte data type')
+    p = plain(a)
+    if axis is None:
+        p = p.reshape(-1)
+        axis = 0
+    axis = axis % p.ndim
+    q = np.moveaxis(p, axis, -1)
+    out = np.empty(q.shape[:-1] + (q.shape[-1] * 8,), dtype=object)
+    for idx in np.ndindex(*q.shape):
+        e = cast_elem(q[idx], np.uint8)
+        for b in range(8):
+            bit = (7 - b) if bitorder == 'big' else b
+            out[idx[:-1] + (idx[-1] * 8 + b,)] = BVS(ir.bvext(ir.bvextract(e.n, bit, bit), 8, False), np.uint8)
+    out = np.moveaxis(out, -1, axis)
+    if count is not None:
+        sl = [slice(None)] * out.ndim
+        sl[axis] = slice(None, count)
+        out = out[tuple(sl)]
+    return wrap(out, np.uint8)
+
+
+@implements(np.packbits)
+def _np_packbits(a, axis=None, bitorder='big'):
+    p = plain(a)
+    if axis is None:
+        p = p.reshape(-1)
+        axis = 0
+    axis = axis % p.ndim
+    q = np.moveaxis(p, axis, -1)
+    nbytes = (q.shape[-1] + 7) // 8
+    out = np.empty(q.shape[:-1] + (nbytes,), dtype=object)
+    for idx in np.ndindex(*(q.shape[:-1] + (nbytes,))):
+        bits = []
+        for b in range(8):
+            j = idx[-1] * 8 + b
+            if j < q.shape[-1]:
+                e = q[idx[:-1] + (j,)]
+                nz = S.as_sb(e).n                # packbits treats any non-zero as 1
+                bits.append(ir.rite(nz, ir.bvconst(1, 1), ir.bvconst(0, 1)))
+            else:
+                bits.append(ir.bvconst(0, 1))
+        if bitorder == 'big':
+            r = bits[0]
+            for b in bits[1:]:
+                r = ir.bvconcat(r, b)
+        else:
+            r = bits[7]
+            for b in reversed(bits[:7]):
+                r = ir.bvconcat(r, b)
+        out[idx] = BVS(r, np.uint8)
+    return wrap(np.moveaxis(out, -1, axis), np.uint8)
+
+
+@implements(np.array_equiv)
+def _np_array_equiv(a, b):
+    try:
+        bb = np.broadcast(plain(a) if isinstance(a, np.ndarray) else a, plain(b) if isinstance(b, np.ndarray) else b)
+    except ValueError:
+        return False
+    r = ir.TRUE
+    for x, y in bb:
+        r = ir.band(r, S.as_sb(_sym_eq(x, y)).n)
+    return SB(r)
+
+
+@implements(np.roll)
+def _np_roll(a, shift, axis=None):
+    return wrap(np.roll(plain(a), shift, axis), a._sd)
+
+
+@implements(np.triu)
+def _np_triu(m, k=0):
+    p = plain(m)
+    mask = np.triu(np.ones(p.shape[-2:], dtype=bool), k)
+    out = p.copy()
+    z = typed_const(0, m._sd) if m._sd is not None and m._sd != object else 0
+    for idx in np.ndindex(*p.shape):
+        if not mask[idx[-2:]]:
+            out[idx] = z
+    return wrap(out, m._sd)
+
+
+@implements(np.tril)
+def _np_tril(m, k=0):
+    p = plain(m)
+    mask = np.tril(np.ones(p.shape[-2:], dtype=bool), k)
+    out = p.copy()
+    z = typed_const(0, m._sd) if m._sd is not None and m._sd != object else 0
+    for idx in np.ndindex(*p.shape):
+        if not mask[idx[-2:]]:
+            out[idx] = z
+    return wrap(out, m._sd)
